@@ -65,8 +65,9 @@ def c04():
     rng = random.Random(chk.seed + 4)
 
     def score_lists(r):
-        k = r.randint(1, 3)
-        return [[r.choice(SCORE_FNS) for _ in range(k)], [r.choice(SCORE_FNS)]]
+        # tie-breaking compositions: two ordered pairs, one triple, one single per visited state
+        a, b = r.sample(SCORE_FNS, 2)
+        return [[a, b], [b, r.choice(SCORE_FNS)], [r.choice(SCORE_FNS) for _ in range(3)], [r.choice(SCORE_FNS)]]
 
     def solver_filters(r):
         return [r.choice([None, [], ["dom"], ["dom", "idle"], [r.choice(FILTERS)], [r.choice(FILTERS), r.choice(FILTERS)]])]
@@ -83,7 +84,9 @@ def c04():
     n = len(traces)
     traces = []
     for i in range(_n(chk, 120, 1200)):
-        b = random_behaviour(rng, max_jobs=4, max_ops=4, max_m=3)
+        # every other instance is tie-rich: more jobs, durations from a two-element set
+        b = (random_behaviour(rng, max_jobs=4, max_ops=4, max_m=3) if i % 2 else
+             random_behaviour(rng, max_jobs=5, max_ops=3, max_m=3, durs=(1, 2)))
         cut = rng.randint(0, len(b["hist"]))
         b["hist"] = b["hist"][:cut]
         traces.append(rule_trace(n + i + 1, b, rng, rule=RULES6[i % 6], chooser=["first", "random"][(i // 6) % 2],
